@@ -23,7 +23,11 @@ type ackTap struct {
 	class string
 	// counters
 	checked *int
+	// swap.step = the step during which a rewrite last replaced the log file (-1: never)
+	swap *swapMark
 }
+
+type swapMark struct{ step int }
 
 func (t *ackTap) onWrite(e *connEnd, b []byte) {
 	w := t.w
@@ -51,6 +55,14 @@ func (t *ackTap) onWrite(e *connEnd, b []byte) {
 			return // stream message after go-live
 		}
 		path := t.inst.srv.opts.AppendFileName
+		if t.swap != nil && t.swap.step >= op.Invoke {
+			// A rewrite replaced the file while this command was in flight: the rewritten file
+			// holds the dataset, not the command's text (its effect may already be overwritten by
+			// a later write). What a restart recovers after a rewrite is C09's and C03's subject;
+			// the literal check applies to every command sent after the swap.
+			w.stat("c08.acks_across_a_rewrite", 1)
+			continue
+		}
 		if len(op.Cmd.Inner) > 0 {
 			// a script whose writes are known: when its (non-error) reply leaves, every one of
 			// them is in the file
@@ -97,14 +109,22 @@ func ackIsDurableWrite(op *Op, v rv) bool {
 // installAckTaps attaches a tap to every server-side end of the actors'
 // connections (call from a step hook; cheap).
 func installAckTaps(w *World, inst *Inst, class string, checked *int) func() {
+	lastFile := inst.srv.aof
+	swap := &swapMark{step: -1}
 	return func() {
+		if inst.srv.aof != lastFile {
+			// the log was rewritten and the file replaced during this step
+			lastFile = inst.srv.aof
+			swap.step = w.step
+		}
+		_ = swap
 		for _, a := range w.actors {
 			if a.end == nil || a.node != inst.node {
 				continue
 			}
 			b := a.end.c.b
 			if b.onWrite == nil && b.inst == inst {
-				t := &ackTap{w: w, inst: inst, actor: a, gen: a.gen, class: class, checked: checked}
+				t := &ackTap{w: w, inst: inst, actor: a, gen: a.gen, class: class, checked: checked, swap: swap}
 				w.mu.Lock()
 				b.onWrite = t.onWrite
 				w.mu.Unlock()
@@ -188,6 +208,13 @@ func runC08(w *World) {
 		})
 		a := w.addActor(n, simAddr(fmt.Sprintf("127.0.0.1:%d", 50001+i)), prog)
 		a.sendTogether = (style == 3 || style == 4) && w.knob(fmt.Sprintf("together%d", i), 2) == 1
+	}
+	// a third of the runs rewrite the log while the writers run: whatever bookkeeping decides
+	// "is there something to flush" has to survive the swap of the file
+	if w.knob("shrink", 3) == 1 {
+		sh := w.addActor(n, "127.0.0.1:50090", []Cmd{{Args: []string{"AOFSHRINK"}}, {Args: []string{"AOFSHRINK"}}})
+		sh.weight = 1
+		w.stat("c08.runs_with_rewrite", 1)
 	}
 	allDone := func() bool {
 		for _, a := range w.actors {
